@@ -133,7 +133,7 @@ func codeFromState(state *state) (*Code, error) {
 			id:           c.ID,
 			parent:       parent,
 			name:         c.Name,
-			isNamed:      c.Name != "" && c.Name != "__main__",
+			isNamed:      c.Name != "" && c.ParentID != "",
 			functionID:   c.FunctionID,
 			symbols:      codeSymbols,
 			instructions: CopyInstructions(c.Instructions),
